@@ -135,6 +135,10 @@ type c16Cfg struct {
 	Kind     string            `json:"kind"`                 // single | pair | row | turn-matrix
 	IDs      []int             `json:"id_classes,omitempty"` // indexes into c16IDClasses (turn-matrix)
 	Factors  []string          `json:"factors"`              // non-default factors "name=class", sorted
+	// Over replaces the "small" value of a flag for workloads that do more on one
+	// server than one host + one receiver (history stage): still the smallest
+	// value that admits what the workload does.
+	Over map[string]string `json:"small_values_for_history,omitempty"`
 }
 
 func (c *c16Cfg) flagValue(name string) (string, bool) {
@@ -145,6 +149,9 @@ func (c *c16Cfg) flagValue(name string) (string, bool) {
 	for _, f := range c16Flags {
 		if f.Name == name {
 			if lv == "small" {
+				if v, ok := c.Over[name]; ok {
+					return v, true
+				}
 				return f.Small, true
 			}
 			return f.Zero, true
@@ -480,6 +487,11 @@ type c16Run struct {
 	turnParsed int
 	cfgStarted int
 	startFail  int
+	// history stage (c16hist.go)
+	histStarted int
+	histRan     map[string]int // order -> servers started for it
+	histDone    map[string]int // order -> servers on which every operation of the order had a positive verdict
+	perHist     []map[string]any
 }
 
 const c16Watchdog = 20 * time.Second
@@ -680,6 +692,11 @@ func (rn *c16Run) exchange(c *c16Cfg, host, recv *c16Role, tConn time.Time, obs 
 
 // checkTurn parses the turn_credentials a role received with the real parser and compares with an independent computation.
 func (rn *c16Run) checkTurn(c *c16Cfg, cr *c16Role, idClass string, tBefore time.Time, obs map[string]any) {
+	rn.checkTurnP(c, "", cr, idClass, tBefore, obs)
+}
+
+// checkTurnP: prefix is put in front of the step part of keys ("history:<order>:" in the history stage).
+func (rn *c16Run) checkTurnP(c *c16Cfg, prefix string, cr *c16Role, idClass string, tBefore time.Time, obs map[string]any) {
 	e := rn.e
 	ttl := time.Hour
 	if v, ok := c.flagValue("turn-cred-ttl"); ok {
@@ -700,6 +717,7 @@ func (rn *c16Run) checkTurn(c *c16Cfg, cr *c16Role, idClass string, tBefore time
 	} else if idClass != "plain-hex" {
 		keyStep += ":peer-id:" + idClass
 	}
+	keyStep = prefix + keyStep
 	if how != "ok" {
 		if how == "ended" {
 			rn.violate(c, keyStep, "TURN issuing is configured but the "+cr.role+" received no turn_credentials before the connection ended", map[string]any{"peer_id": cr.peerID})
@@ -769,7 +787,7 @@ func (rn *c16Run) checkTurn(c *c16Cfg, cr *c16Role, idClass string, tBefore time
 			continue
 		}
 		e.R.Eval()
-		e.R.Distinct(c.key() + "|parseTurnServer|" + c.Turn.Class + "|id:" + idClass + "|" + cr.role)
+		e.R.Distinct(c.key() + "|" + prefix + "parseTurnServer|" + c.Turn.Class + "|id:" + idClass + "|" + cr.role)
 		e.R.Count("turn_entries_checked")
 	}
 	obs["turn:"+cr.role] = "checked"
@@ -983,8 +1001,9 @@ func (rn *c16Run) thruHost(c *c16Cfg, idx int, obs map[string]any) {
 
 func runC16(e *Env) {
 	r := vk.NewRng(e.Seed ^ vk.HashStr("c16"+e.Tier))
-	rn := &c16Run{e: e, singleFail: map[string]bool{}, funcs: map[string]int{}, spellSeen: map[string]int{}, idSeen: map[string]int{}}
-	e.R.Rule = "one case = the real thruserv started with one configuration (each documented limit/timeout flag at default|small|0 one at a time, TURN issuing on/off/half-configured; thorough adds every pair of factors at every level pair plus seeded all-factor rows) and the real client functions run against it (clienthttp.CreateSession, app.buildWebSocketURL + wsclient.Dial/ReadLoop/Send as host and as receiver, ice.parseTurnServer on the received turn_credentials over --turn-server spellings x peer-id character classes); a case counts when a client function returned a verdict against a started server; distinct by (flag vector, function/role, URL spelling, peer-id class)"
+	rn := &c16Run{e: e, singleFail: map[string]bool{}, funcs: map[string]int{}, spellSeen: map[string]int{}, idSeen: map[string]int{},
+		histRan: map[string]int{}, histDone: map[string]int{}}
+	e.R.Rule = "one case = the real thruserv started with one configuration (each documented limit/timeout flag at default|small|0 one at a time, TURN issuing on/off/half-configured; thorough adds every pair of factors at every level pair plus seeded all-factor rows) and the real client functions run against it (clienthttp.CreateSession, app.buildWebSocketURL + wsclient.Dial/ReadLoop/Send as host and as receiver, ice.parseTurnServer on the received turn_credentials over --turn-server spellings x peer-id character classes); history stage: per configuration one more server per order, an order being a sequence of creates / host connects / receiver connects / envelopes / session ends over k=2..3 sessions that share the server (all created first; interleaved; late receiver joining an old session after newer ones exist; receivers before hosts; an earlier session ended; seeded random interleavings), small limits sized to exactly what the order does; every call must succeed and land in its own session; a case counts when a client function returned a verdict against a started server; distinct by (flag vector, function/role, URL spelling, peer-id class, history order, operation)"
 	if _, err := os.Stat(filepath.Join(e.BinDir, "thruserv")); err != nil {
 		e.R.Inconcl("thruserv binary missing in " + e.BinDir)
 		e.R.Require(false, "thruserv binary not built")
@@ -1024,6 +1043,57 @@ func runC16(e *Env) {
 		rn.runCfg(k, &multi[i], vk.NewRng(seeds[k]), false)
 	})
 
+	// ---- history stage: k >= 2 sessions on one server, in several orders, per configuration ----
+	type hcase struct {
+		cfg *c16Cfg
+		ord c16Order
+	}
+	var hSingles, hMulti []hcase
+	hr := r.Fork()
+	for i := range singles {
+		for _, o := range c16FixedOrders {
+			hSingles = append(hSingles, hcase{&singles[i], o})
+		}
+		for x := 0; x < e.Pick(1, 3); x++ {
+			hSingles = append(hSingles, hcase{&singles[i], c16RandomOrder(hr)})
+		}
+	}
+	for i := range multi {
+		// multi-factor configurations: one fixed order (rotating) and, in thorough, one random order each
+		hMulti = append(hMulti, hcase{&multi[i], c16FixedOrders[hr.Intn(len(c16FixedOrders))]})
+		if e.Thorough() {
+			hMulti = append(hMulti, hcase{&multi[i], c16RandomOrder(hr)})
+		}
+	}
+	hSeeds := make([]uint64, len(hSingles)+len(hMulti))
+	for i := range hSeeds {
+		hSeeds[i] = hr.U64()
+	}
+	vk.ParallelDo(len(hSingles), 16, func(i int) {
+		rn.runHistory(i, hSingles[i].cfg, &hSingles[i].ord, vk.NewRng(hSeeds[i]))
+	})
+	vk.ParallelDo(len(hMulti), 16, func(i int) {
+		k := len(hSingles) + i
+		rn.runHistory(k, hMulti[i].cfg, &hMulti[i].ord, vk.NewRng(hSeeds[k]))
+	})
+	orderSpecs := map[string]string{}
+	for _, o := range c16FixedOrders {
+		orderSpecs[o.Name] = o.Spec
+	}
+	orderSpecs["random"] = "k in {2,3} sessions, each: c (h r | r h) x [l y] [q], interleaved by the seeded rng"
+	e.R.SetExtra("history", map[string]any{
+		"ops":                 "c create session, h host connects, r receiver connects, x envelope host->receiver and back, l late second receiver connects, y late receiver->host envelope, q session ends (all its sockets close); letter = session",
+		"orders":              orderSpecs,
+		"servers_started":     rn.histStarted,
+		"servers_per_order":   rn.histRan,
+		"completed_per_order": rn.histDone,
+		"single_factor_cases": len(hSingles),
+		"multi_factor_cases":  len(hMulti),
+		"connects_after_later_create": map[string]int{"sender": e.R.Counter("history_connect_after_later_create:sender"),
+			"receiver": e.R.Counter("history_connect_after_later_create:receiver")},
+		"samples": rn.perHist,
+	})
+
 	e.R.SetExtra("configurations", map[string]any{"single_factor": len(singles), "turn_matrix_servers": len(matrix),
 		"multi_factor": len(multi), "started": rn.cfgStarted, "start_failures": rn.startFail})
 	e.R.SetExtra("client_function_calls", rn.funcs)
@@ -1054,4 +1124,12 @@ func runC16(e *Env) {
 	e.R.Require(rn.turnParsed >= 3*len(c16TurnSpellings), "too few turn_credentials were parsed")
 	e.R.Require(len(rn.spellSeen) >= len(c16TurnSpellings)*8/10, "too few TURN URL spellings reached the parser")
 	e.R.Require(len(rn.idSeen) >= len(c16IDClasses)*8/10, "too few peer-id classes reached the parser")
+	e.R.Require(rn.histStarted >= (len(hSingles)+len(hMulti))*9/10, fmt.Sprintf("only %d of %d history servers started", rn.histStarted, len(hSingles)+len(hMulti)))
+	for _, o := range c16FixedOrders {
+		e.R.Require(rn.histDone[o.Name] >= len(singles)*8/10,
+			fmt.Sprintf("history order %q completed on only %d of %d single-factor configurations", o.Name, rn.histDone[o.Name], len(singles)))
+	}
+	e.R.Require(rn.histDone["random"] >= len(singles)*e.Pick(1, 3)*8/10, "too few seeded random histories completed")
+	e.R.Require(e.R.Counter("history_connect_after_later_create:sender") >= len(singles) && e.R.Counter("history_connect_after_later_create:receiver") >= len(singles),
+		"too few connects used a join code after later sessions had been created on the same server")
 }
